@@ -21,6 +21,7 @@ fn main() {
         _ => Tier::Quick,
     };
     let mut replay: Option<PathBuf> = None;
+    let mut from_bytes: Option<PathBuf> = None;
     let mut i = 1;
     while i < args.len() {
         match args[i].as_str() {
@@ -29,6 +30,10 @@ fn main() {
             "--replay" => {
                 i += 1;
                 replay = Some(PathBuf::from(args.get(i).cloned().unwrap_or_else(|| usage())));
+            }
+            "--from-bytes" => {
+                i += 1;
+                from_bytes = Some(PathBuf::from(args.get(i).cloned().unwrap_or_else(|| usage())));
             }
             _ => usage(),
         }
@@ -61,6 +66,16 @@ fn main() {
     let mut ctx = Ctx::new(&id, tier, seed);
     if replay.is_some() {
         ctx.set_strict();
+    }
+    if let Some(p) = &from_bytes {
+        // convert a libFuzzer artifact into a JSON replay (strict: known findings suppress nothing)
+        ctx.set_strict();
+        let data = std::fs::read(p).unwrap_or_else(|e| {
+            eprintln!("cannot read {}: {e}", p.display());
+            std::process::exit(2)
+        });
+        vharness::fuzz::replay_bytes(&mut ctx, &data);
+        std::process::exit(if ctx.violations.is_empty() { 0 } else { 1 });
     }
     run(&mut ctx, replay.as_deref());
     let code = ctx.finish();
